@@ -12,7 +12,7 @@ The invariant is `total + (dirty ? pending : 0) = Σ`.
 -/
 namespace NetVerif.Proofs.C61
 open NetVerif.Model.TimeSeries
-open NetVerif.Proofs.TSRange (obsIn inI64 timesInRange alignedFinest addBehind noAddBehind)
+open NetVerif.Proofs.TSRange (obsIn inI64 timesInRange alignedFinest)
 
 /-- Sum of the observations of a history, restarting at every `Clear`. -/
 def sumFrom (acc : Int) : List Op → Int
@@ -58,10 +58,11 @@ theorem inv_mergeValue {s : TS} {σ : Int} (v t : Int) (h : Inv s σ) :
   exact ⟨by omega, h2⟩
 
 theorem inv_catchUp {s : TS} {σ : Int} (now : Int) (h : Inv s σ) : Inv (s.catchUp now) σ := by
-  unfold TS.catchUp
-  split
-  · exact (inv_mergePending (inv_advance now h)).1
-  · exact (inv_mergePending h).1
+  have h1 : Inv ((if s.end0 < now then s.advance now else s).mergePending) σ := by
+    split
+    · exact (inv_mergePending (inv_advance now h)).1
+    · exact (inv_mergePending h).1
+  exact h1
 
 theorem inv_add {s : TS} {σ : Int} (t v : Int) (h : Inv s σ) :
     Inv (s.addWithTime (Obs.exact v) t) (σ + v) := by
@@ -185,69 +186,40 @@ def RangeStatement : Prop :=
     alignedFinest (TS.newTimeSeries.run ops) a b = true →
     ((TS.newTimeSeries.run ops).range a b).2 = some ⟨obsIn a b 0 ops, false⟩
 
-/- `addBehind s t` (Lemmas/TimeSeriesHistory): the add opens a new pending bucket (`t` is after `pendingTime`)
-although level 0 was already advanced past `t`'s bucket by `Latest`/`LatestBuckets`
-(`pendingTime < t ≤ levels[0].end - resolution`); the observation is then filed under `levels[0].end`, not
-under `t`. `noAddBehind s ops` runs the model and checks that no add of the history is of that kind. -/
+/-- **C61, second clause (finest level)** — holds at full strength on the repaired code (`Latest` /
+`LatestBuckets` keep `pendingTime` in step with the advanced finest level): for every history with
+in-range times — adds in or out of order, far past, far future, interleaved with
+`Total`/`Latest`/`LatestBuckets`/`ComputeRange`/`Clear` — a bucket-aligned range inside the finest retained
+window reports exactly the observations added in it, with no approximation. -/
+theorem range_holds : RangeStatement := by
+  intro ops a b hin hal
+  exact TSRange.range_exact_full 64 1000000000 _ (by decide) (by decide) (by decide) (by decide) ops a b hin hal
 
-/-- The part of `RangeStatement` that the unchanged code satisfies: the excluded region is the decidable
-predicate `noAddBehind … = false`. Proved below (`range_holds_partial`). -/
-def RangePartialStatement : Prop :=
-  ∀ (ops : List Op) (a b : Int), timesInRange ops = true → noAddBehind TS.newTimeSeries ops = true →
-    alignedFinest (TS.newTimeSeries.run ops) a b = true →
-    ((TS.newTimeSeries.run ops).range a b).2 = some ⟨obsIn a b 0 ops, false⟩
+/-- The same for `MinuteHourSeries` (60 buckets of 1 s). -/
+theorem range_holds_minuteHour (ops : List Op) (a b : Int) (hin : timesInRange ops = true)
+    (hal : alignedFinest (TS.newMinuteHourSeries.run ops) a b = true) :
+    ((TS.newMinuteHourSeries.run ops).range a b).2 = some ⟨obsIn a b 0 ops, false⟩ :=
+  TSRange.range_exact_full 60 1000000000 _ (by decide) (by decide) (by decide) (by decide) ops a b hin hal
 
-/-- Witness history: add at 0.5 s, `Latest` with the clock at 30 s, add at 10.5 s (seconds after
-1 700 000 000). -/
+/-- The history that used to refute the statement (add at 0.5 s, `Latest` with the clock at 30 s, add at
+10.5 s; seconds after 1 700 000 000): before the repair the second observation was filed under the bucket
+ending at 30 s and `Range(10 s, 11 s)` reported 0. -/
 def witnessOps : List Op :=
   [.add 1700000000500000000 5, .latest 1700000030000000000 0 1, .add 1700000010500000000 7]
 
-/-- On the unchanged code the observation added at 10.5 s is not reported by the aligned range
-`(10 s, 11 s]` — it was filed under the bucket ending at 30 s (and `Latest(0,1)` shows it there). -/
-theorem range_witness :
+/-- The old witness now satisfies the statement: the aligned range `(10 s, 11 s]` reports the 7, and the
+newest bucket no longer contains it. -/
+example :
     timesInRange witnessOps = true ∧
     alignedFinest (TS.newTimeSeries.run witnessOps) 1700000010000000000 1700000011000000000 = true ∧
-    ((TS.newTimeSeries.run witnessOps).range 1700000010000000000 1700000011000000000).2 = some ⟨0, false⟩ ∧
+    ((TS.newTimeSeries.run witnessOps).range 1700000010000000000 1700000011000000000).2 = some ⟨7, false⟩ ∧
     obsIn 1700000010000000000 1700000011000000000 0 witnessOps = 7 ∧
-    ((TS.newTimeSeries.run witnessOps).latest 1700000030000000000 0 1).2 = some ⟨7, false⟩ ∧
-    noAddBehind TS.newTimeSeries witnessOps = false := by decide +kernel
-
-/-- The second clause of C61 is false for histories in which reads that advance the levels
-(`Latest`, `LatestBuckets`) are interleaved with adds at explicit earlier times. -/
-theorem range_full_false : ¬ RangeStatement := by
-  intro h
-  have w := range_witness
-  have := h witnessOps 1700000010000000000 1700000011000000000 w.1 w.2.1
-  rw [w.2.2.1, w.2.2.2.1] at this
-  exact absurd this (by decide)
-
-/-- **C61, second clause (finest level), on the unchanged code**: for every history with in-range times
-and no add behind an advanced level — adds in or out of order, far past, far future, interleaved with
-`Total`/`Latest`/`LatestBuckets`/`ComputeRange`/`Clear` — a bucket-aligned range inside the finest retained
-window reports exactly the observations added in it, with no approximation. -/
-theorem range_holds_partial : RangePartialStatement := by
-  intro ops a b hin hnb hal
-  exact TSRange.range_exact_general 64 1000000000 _ (by decide) (by decide) (by decide) (by decide) ops a b hin hnb hal
-
-/-- The same for `MinuteHourSeries` (60 buckets of 1 s). -/
-theorem range_holds_partial_minuteHour (ops : List Op) (a b : Int) (hin : timesInRange ops = true)
-    (hnb : noAddBehind TS.newMinuteHourSeries ops = true)
-    (hal : alignedFinest (TS.newMinuteHourSeries.run ops) a b = true) :
-    ((TS.newMinuteHourSeries.run ops).range a b).2 = some ⟨obsIn a b 0 ops, false⟩ :=
-  TSRange.range_exact_general 60 1000000000 _ (by decide) (by decide) (by decide) (by decide) ops a b hin hnb hal
-
-/-- Add-only histories (no `Latest`/`LatestBuckets` in between) never add behind an advanced level is
-NOT assumed anywhere: the theorem above carries the exact exclusion. Non-vacuity of its hypotheses: -/
-example : timesInRange [.add 1700000000500000000 5, .add 1700000030000000000 1, .add 1700000010500000000 7] = true ∧
-    noAddBehind TS.newTimeSeries [.add 1700000000500000000 5, .add 1700000030000000000 1, .add 1700000010500000000 7] = true ∧
-    alignedFinest (TS.newTimeSeries.run [.add 1700000000500000000 5, .add 1700000030000000000 1, .add 1700000010500000000 7])
-      1700000010000000000 1700000011000000000 = true := by decide +kernel
+    ((TS.newTimeSeries.run witnessOps).latest 1700000030000000000 0 1).2 = some ⟨0, false⟩ := by decide +kernel
 
 /-- The coarser levels: statement only (tied by the differential run and the Go oracle, which checks
 aligned ranges of every level against a naive reference). -/
 def RangeCoarserStatement : Prop :=
   ∀ (ops : List Op) (a b : Int) (k : Nat) (l : Level), timesInRange ops = true →
-    noAddBehind TS.newTimeSeries ops = true →
     pickLevel 64 a (TS.newTimeSeries.run ops).levels = some l → (TS.newTimeSeries.run ops).levels[k]? = some l →
     a ≤ b → b - a ≤ maxDur → (l.end_ - a) % l.size = 0 → (b - a) % l.size = 0 → l.end_ - l.size * 64 ≤ a →
     ((TS.newTimeSeries.run ops).range a b).2 = some ⟨obsIn a b 0 ops, false⟩
